@@ -141,6 +141,16 @@ CLAIMED = {
             "trusted: TLC, IEEE-754 hardware arithmetic and the platform libm via python floats/math as the value oracle; shift "
             "counts >= 64 are undecided; fractional operands of bitwise operators are truncated",
             "DESIGN.md §4 C09"),
+    "C16": ("TLA+ spec Determinism (memo: (program, configuration) -> output; Observe enabled only for the remembered output) "
+            "model-checked by TLC (Functional); every program x configuration observed in many contexts on the implementation "
+            "and the observation trace validated against Trace_Determinism",
+            "TLC checks that an observed answer never changes in Determinism and enumerates thread histories (Total); each "
+            "program x configuration (hash-order / did-you-mean / multi-failure / std.trace / ext+tla hazards, cyclic and erroring "
+            "corpora, repository programs, TLC-enumerated Core programs) is run in 5+ fresh processes, on a used thread after every "
+            "sampled history, inside a long-lived State and after pre-interning 1/1000/50000 strings; digests of output + error "
+            "text + trace + std.trace lines form an Observe trace that Trace_Determinism accepts only if it is functional",
+            "sampled programs and contexts, not all; wall-clock, memory limits and native stack exhaustion are outside",
+            "DESIGN.md section C16"),
     "C04": ("TLA+ specs Total (per-thread outcome protocol and histories), Stack (frame counter) and StdSig (boundary "
             "tuples) model-checked by TLC; source texts, every std function x boundary tuples, recursion sweeps and TLC-enumerated "
             "failure histories executed on the implementation and trace-validated against Trace_Total",
